@@ -75,6 +75,19 @@ type C11Reopen struct {
 	StaleRepeat      int `json:"stale_repeat,omitempty"`
 }
 
+// C11LateOpen: a connection id is opened AFTER the multiplexer has failed or was closed: right
+// after the failure of the case has taken effect (When "after_failure": the mux was closed
+// locally, or noticed the peer's Close / the trunk failure / the overflow by itself) or at the
+// very end (both ends closed locally). Reuse: the id of connection Conn of the case, whose
+// handle is closed first (so that it leaves the table); otherwise an id never used before.
+type C11LateOpen struct {
+	Side   int    `json:"side"`
+	Method string `json:"method"` // o = Open, d = Dialer, l = Listen + Accept
+	Reuse  bool   `json:"reuse,omitempty"`
+	Conn   int    `json:"conn,omitempty"`
+	When   string `json:"when"` // after_failure | at_end
+}
+
 // C11Listener is the second, small sub-case kind: the net.Listener returned by Mux.Listen.
 type C11Listener struct {
 	AcceptorsBefore []int `json:"acceptors_before"` // per goroutine started before Close: number of Accept calls
@@ -103,6 +116,9 @@ type C11MuxOpt struct {
 	AfterWrites int    `json:"after_writes,omitempty"`
 	DelayMs     int    `json:"delay_ms,omitempty"`
 	OmitQLen    bool   `json:"omit_qlen,omitempty"` // WithReadQueueLength not passed (only where the length is the default 256)
+	// FdTrunk: the trunk of this end is made by nrinet.NewFdConn from a (dup'ed) descriptor of the
+	// socket pair - the way pkg/stub makes the trunk of a launched plugin - instead of LocalConn/PeerConn
+	FdTrunk bool `json:"fd_trunk,omitempty"`
 }
 
 // late: the mux may still be blocked while the traffic of the case runs.
@@ -114,19 +130,20 @@ func (o C11MuxOpt) held() bool {
 }
 
 type C11Case struct {
-	Kind     string       `json:"kind"` // mux | listener
-	QLen     int          `json:"qlen"`
-	Blocked  bool         `json:"blocked,omitempty"` // older cases: both ends blocked, unblocked before any traffic
-	Opts     [2]C11MuxOpt `json:"mux_opts,omitempty"`
-	IDs      []uint32     `json:"ids"`
-	Streams  []C11Stream  `json:"streams,omitempty"`
-	Failure  C11Failure   `json:"failure"`
-	Final    C11Close     `json:"final"`
-	Delays   []Delay      `json:"delays,omitempty"`
-	Reopen   []C11Reopen  `json:"reopen,omitempty"`
-	Listener *C11Listener `json:"listener,omitempty"`
-	Storm    *C11Storm    `json:"storm,omitempty"`
-	Flood    *C11Flood    `json:"flood,omitempty"`
+	Kind     string        `json:"kind"` // mux | listener
+	QLen     int           `json:"qlen"`
+	Blocked  bool          `json:"blocked,omitempty"` // older cases: both ends blocked, unblocked before any traffic
+	Opts     [2]C11MuxOpt  `json:"mux_opts,omitempty"`
+	IDs      []uint32      `json:"ids"`
+	Streams  []C11Stream   `json:"streams,omitempty"`
+	Failure  C11Failure    `json:"failure"`
+	Final    C11Close      `json:"final"`
+	Delays   []Delay       `json:"delays,omitempty"`
+	Reopen   []C11Reopen   `json:"reopen,omitempty"`
+	Late     []C11LateOpen `json:"late_opens,omitempty"`
+	Listener *C11Listener  `json:"listener,omitempty"`
+	Storm    *C11Storm     `json:"storm,omitempty"`
+	Flood    *C11Flood     `json:"flood,omitempty"`
 }
 
 func genClosers(t *rapid.T) (int, int) {
@@ -139,12 +156,13 @@ func genC11(t *rapid.T) C11Case {
 		"cut_write", "cut_write", "cut_write", "cut_write",
 		"storm", "storm", "storm",
 		"flood", "flood", "flood",
+		"listener", "listener",
 		"overflow", "overflow", "overflow",
 		"cut_read", "cut_read",
 		"read_error", "read_error", "read_error", "read_error",
 		"deadline", "deadline",
-		"close_conn", "close_conn",
-		"none", "none",
+		"close_conn", "close_conn", "close_conn", "close_conn",
+		"none", "none", "none",
 		"listener",
 	}).Draw(t, "kind")
 	if kind == "listener" {
@@ -292,7 +310,7 @@ func genC11(t *rapid.T) C11Case {
 	}
 	c.Failure = f
 	for sd := 0; sd < 2; sd++ {
-		o := C11MuxOpt{OmitQLen: c.QLen == defaultQLen && rapid.Bool().Draw(t, "omit_qlen")}
+		o := C11MuxOpt{OmitQLen: c.QLen == defaultQLen && rapid.Bool().Draw(t, "omit_qlen"), FdTrunk: rapid.IntRange(0, 2).Draw(t, "fd_trunk") == 0}
 		switch rapid.SampledFrom([]string{"", "", "", "", "never", "after_close", "before_traffic", "after_writes", "never"}).Draw(t, "blocked_read") {
 		case "":
 		case "before_traffic":
@@ -362,6 +380,15 @@ func genC11(t *rapid.T) C11Case {
 			ro.StaleRepeat = rapid.SampledFrom([]int{1, 1, 2, 3}).Draw(t, "ro_srepeat")
 			c.Reopen = append(c.Reopen, ro)
 		}
+	}
+	if rapid.IntRange(0, 2).Draw(t, "late") != 0 {
+		c.Late = rapid.SliceOfN(rapid.Custom(func(t *rapid.T) C11LateOpen {
+			return C11LateOpen{Side: rapid.IntRange(0, 1).Draw(t, "lo_side"),
+				Method: rapid.SampledFrom([]string{"o", "o", "d", "l"}).Draw(t, "lo_method"),
+				Reuse:  rapid.IntRange(0, 2).Draw(t, "lo_reuse") == 0,
+				Conn:   rapid.IntRange(0, len(c.IDs)-1).Draw(t, "lo_conn"),
+				When:   rapid.SampledFrom([]string{"after_failure", "after_failure", "at_end"}).Draw(t, "lo_when")}
+		}), 1, 4).Draw(t, "late_opens")
 	}
 	c.Final.Side = rapid.IntRange(0, 1).Draw(t, "final_side")
 	c.Final.Closers, c.Final.Repeat = genClosers(t)
